@@ -78,7 +78,7 @@ def check_c10(tier, seed, replay=None):
         "(delete / insert / replace / truncate); each also with the reader failing (non-EOF error) at sampled offsets, short files at EVERY offset. Required of ReadFile: returns "
         "(no panic, no hang); a reader failure before the end gives an error; if it reports success on x then x + one more valid struct gives an error or a File containing that struct. "
         "The extracted model's result (full File dump) is compared on every input; distinct = distinct (input, failure offset)",
-        "props/C10.v", ["C10_partial"])
+        "props/C10.v", ["C10_partial", "C10_no_panic"])
     rng = SplitMix64(seed).fork("C10")
     inputs = []     # (bytes, k, source)
     files = testdata_files()
@@ -605,7 +605,7 @@ def check_fmt(pid, tier, seed, replay=None):
             "Format must terminate without error; " +
             ("ReadFile(Format(x)) must be accepted and equal ReadFile(x) with doc comments erased" if pid == "C16" else "Format(Format(x)) must equal Format(x) byte for byte") +
             "; the extracted formatter model's output is compared byte for byte on every text; distinct = distinct texts")
-    run, broken = base_run(pid, tier, seed, rule, "props/%s.v" % pid, ["%s_refuted" % pid])
+    run, broken = base_run(pid, tier, seed, rule, "props/%s.v" % pid, ["%s_refuted" % pid] + (["C16_partial"] if pid == "C16" else []))
     run.cov["explanation"] = ("the full statement is false of the code and of the faithful model: the theorem is its refutation (%s_refuted, coq/props/%s.v) with the committed known findings as "
                               "witnesses, each replayed on the implementation by this run; every other accepted text is decided by the differential run against the formatter model" % (pid, pid))
     rng = SplitMix64(seed).fork("FMT")
